@@ -316,6 +316,18 @@ pub fn targeted() -> Vec<String> {
             v.push(format!("---\n{k}: [\"{t}\", 3]\n---\n@a{{1}}"));
         }
     }
+    // the same time key given twice or three times, refused and accepted values, overridden in between by the competing key
+    for seq in [
+        &["time: soon", "time: 10 min"][..], &["time: 1h", "prep time: 5 min", "time: 10 min"], &["prep time: 5 min", "time: 1h", "prep time: 7 min"], &["cook time: x", "cook time: 3 min", "time: 9 min", "cook time: 1 min"],
+        &["time: 10 min", "time: soon", "time: 5 min"], &["duration: soon", "duration: 1h", "time required: 2h", "time: 3h"], &["prep_time: a", "prep time: 1 min", "prep_time: 2 min", "time: 1 min", "prep_time: 3 min"],
+        &["servings: many", "servings: 2", "servings: 2|2", "servings: 4"], &["locale: xx_", "locale: en", "locale: 1"], &["time: 1h", "time: 1h", "time: 1h"],
+    ] {
+        let arrows: String = seq.iter().map(|l| format!(">> {l}\n")).collect();
+        v.push(format!("{arrows}\nMix.\n"));
+        v.push(format!("{arrows}"));
+        v.push(format!("---\n{}\n---\nMix.\n", seq.join("\n")));
+        v.push(format!("---\n{}\n---\n{arrows}Mix.\n", seq[0]));
+    }
     // empty servings list; more than 7 labels in one diagnostic (one label per `>>` entry)
     v.push("---\nservings: []\n---\nMix @flour{200%g} and @water{1%l}.\n".to_string());
     v.push(">> servings: \n@a{1}".to_string());
